@@ -513,10 +513,12 @@ class FileIndex(Index):
                     segments.append(segment)
 
         reusable = {}
+        done = False
         try:
             if len(segments) == 0:
                 # This index has no segments! Return an EmptyReader object,
                 # which simply returns empty or zero to every method
+                done = True
                 return EmptyReader(schema)
 
             if reuse:
@@ -550,17 +552,24 @@ class FileIndex(Index):
             if len(segments) == 1:
                 # This index has one segment, so return a SegmentReader object
                 # for the segment
-                return segreader(segments[0])
+                reader = segreader(segments[0])
             else:
                 # This index has multiple segments, so create a list of
                 # SegmentReaders for the segments, then composite them with a
                 # MultiReader
 
                 readers = [segreader(segment) for segment in segments]
-                return MultiReader(readers, generation=generation)
+                reader = MultiReader(readers, generation=generation)
+            done = True
+            return reader
         finally:
-            for r in reusable.values():
-                r.close()
+            # Close the recycled readers the new reader does not use -- but
+            # only once there is a new reader. If opening a segment failed (a
+            # commit deleted the file under us) FileIndex.reader() retries with
+            # the same recycled reader, which must still be intact then
+            if done:
+                for r in reusable.values():
+                    r.close()
 
     def reader(self, reuse=None):
         retries = 10
